@@ -524,6 +524,8 @@ def call_method(ip, st, recv, name, args, kwargs):
 
 def b_len(ip, st, x):
     x = st.force(x)
+    if hasattr(x, "py_force"):
+        x = x.py_force(st)  # a lazily decoded value (protocol.force_lazy)
     if isinstance(x, ModelObj):
         return x.py_len(st)
     if getattr(x, "is_text", False):
@@ -583,7 +585,38 @@ def _sym_extreme(ip, st, args, kw, want_max):
     return m
 
 
+def _extremum_star(ip, st, args, want_max):
+    """max(x1, .., xk, *seq) / min(..) with `seq` of symbolic length and k >= 1 integer arguments: a fresh
+    integer r with its defining facts -- r bounds every explicit argument and every element of seq, and r
+    is one of them (a witness index when it is an element).  CPython: max/min of ints returns the extreme
+    value; with k >= 1 the argument list is never empty, so no ValueError.  Elements must be integers."""
+    from .interp import StarArgs
+
+    fixed = [st.force(x) for x in args[:-1]]
+    seq = args[-1].seq
+    if not fixed or any(x is None or not V.is_num(x) for x in fixed):
+        raise Unsupported("max/min(*seq) of symbolic length needs at least one explicit integer argument")
+    n = Q.seq_len(seq)
+    r = st.fresh_int("max" if want_max else "min")
+    op = ">=" if want_max else "<="
+    for x in fixed:
+        st.assume(V._cmp(op, r, x))
+
+    def elt(j):
+        e = Q.seq_get(seq, j)
+        if not V.is_num(e) or isinstance(e, SBool):
+            raise Unsupported("max/min(*seq) over non-integer elements")
+        return e
+
+    st.assume(V.forall(0, n, lambda j: V._cmp(op, r, elt(j))))
+    jw = st.fresh_int("witness")
+    st.assume(either(*[V._cmp("==", r, x) for x in fixed], both(V._cmp(">=", jw, 0), V._cmp("<", jw, n), V._cmp("==", r, elt(jw)))))
+    return r
+
+
 def b_min(ip, st, *args, **kw):
+    if args and type(args[-1]).__name__ == "StarArgs":
+        return _extremum_star(ip, st, args, False)
     r = _sym_extreme(ip, st, args, kw, False)
     if r is not NotImplemented:
         return r
@@ -602,6 +635,8 @@ def b_min(ip, st, *args, **kw):
 
 
 def b_max(ip, st, *args, **kw):
+    if args and type(args[-1]).__name__ == "StarArgs":
+        return _extremum_star(ip, st, args, True)
     r = _sym_extreme(ip, st, args, kw, True)
     if r is not NotImplemented:
         return r
